@@ -63,6 +63,26 @@ def boundary_call(rng, measure):
         b = a + rng.randint(0, 4)
         if rng.random() < 0.5:
             a, b = b, a
+    tie_ = False
+    if measure in ('JACCARD', 'DICE', 'COSINE') and rng.random() < 0.15:
+        # scores that are exact binary TIES at the fifth decimal (m/32, m odd): round-half-even and
+        # round-half-up give different 4-decimal scores when m = 1 (mod 4), e.g. 25/32 = 0.78125
+        tie_ = True
+        m_ = rng.choice([1, 5, 9, 13, 17, 21, 25, 29, 3, 7, 11, 15])
+        if measure == 'JACCARD':
+            o = m_
+            x_ = rng.randint(0, 32 - m_)
+            a, b = m_ + x_, 32 - x_
+        elif measure == 'DICE':
+            o = m_
+            a = rng.choice([32, 30, 29]) if m_ <= 29 else 32
+            a = max(a, m_)
+            b = 64 - a
+        else:
+            if m_ > 16:
+                a, b, o = 32, 32, m_
+            else:
+                a, b, o = rng.choice([(16, 64), (64, 16), (32, 32)]) + (m_,)
     if measure == 'JACCARD':
         t = o / (a + b - o)
     elif measure == 'DICE':
@@ -72,9 +92,11 @@ def boundary_call(rng, measure):
         t = o / (math.sqrt(a) * math.sqrt(b))
     else:
         t = o / min(a, b)
-    if adv_ is None:
+    if tie_:
+        t = rng.choice([round(t, 4), round(t, 4), t, round(t, 4) + 1e-4, round(t, 4) - 1e-4])
+    elif adv_ is None:
         t = min(1.0, gens.ulp_shift(t, rng.choice([0, 0, 0, -1, 1, -2])))
-    if adv_ is None and rng.random() < 0.3:
+    if adv_ is None and not tie_ and rng.random() < 0.3:
         t = round(t, rng.choice([2, 3, 4])) or t
     t = min(max(t, 1e-3), 1.0)
     common = ['z%02d' % i for i in range(o)]
@@ -91,7 +113,7 @@ def boundary_call(rng, measure):
     L = pd.DataFrame({'id': range(1, len(lrows) + 1), 's': pd.Series(lrows, dtype=object)})
     R = pd.DataFrame({'id': range(1, len(rrows) + 1), 's': pd.Series(rrows, dtype=object)})
     return dict(measure=measure, kind='ws', tok=sm.WhitespaceTokenizer(return_set=True), L=L, R=R,
-                names=('id', 's', 'id', 's'), t=t, tcls='boundary',
+                names=('id', 's', 'id', 's'), t=t, tcls='tie' if tie_ else 'boundary',
                 op=adv_ if adv_ else rng.choice(['>=', '>=', '>', '=']),
                 allow_empty=True, allow_missing=False, with_score=True,
                 njobs=rng.choice([1, 1, 2]), l_out=None, r_out=None)
